@@ -184,16 +184,16 @@ def modelVisit (surf : Img Int) (next : QE) (acc : MSt Ã— Int) (nb : Nb) : MSt Ã
   | none => (st, margin)
   | some (nmargin, margin') =>
     let npos := ((next.pos : Int) + nb.delta).toNat
-    match st.status.getD npos 0 with
-    | 0 =>
+    -- `switch (status[npos])`: white / grey / (black: nothing)
+    if st.status.getD npos 0 == 0 then
       ({ st with queue := st.queue ++ [âŸ¨surf.data.getD npos 0, st.idx, npos, nmarginâŸ©],
                  idx := st.idx + 1,
                  res := st.res.setIfInBounds npos (st.res.getD next.pos 0),
                  status := st.status.setIfInBounds npos 1 }, margin')
-    | 1 =>
+    else if st.status.getD npos 0 == 1 then
       (if st.res.getD next.pos 0 != st.res.getD npos 0
         then { st with lines := st.lines.setIfInBounds npos true } else st, margin')
-    | _ => (st, margin')
+    else (st, margin')
 
 def modelStep (surf : Img Int) (nbs : List Nb) (st : MSt) : Option MSt :=
   match extractMin QE.key st.queue with
